@@ -13,11 +13,11 @@ Ev == Trace[l]
 IsEv(e) == l <= Len(Trace) /\ Ev.ev = e /\ l' = l + 1 /\ UNCHANGED rej
 
 Init == /\ l = 1 /\ rej = <<>> /\ file = <<>> /\ fileEnd = 0 /\ pos = 0 /\ blocked = FALSE /\ perr = "nil"
-        /\ faultable = FALSE /\ cutLen = -1 /\ open = FALSE /\ recs = <<>> /\ nseq = 0
+        /\ faultable = FALSE /\ cutLen = -1 /\ layoutOK = TRUE /\ open = FALSE /\ recs = <<>> /\ nseq = 0
 
 Reset == /\ IsEv("T")
          /\ file' = Ev.file /\ fileEnd' = Ev.fileEnd /\ recs' = Ev.recs /\ nseq' = 0
-         /\ pos' = 0 /\ blocked' = FALSE /\ perr' = "nil" /\ faultable' = FALSE /\ cutLen' = -1 /\ open' = TRUE
+         /\ pos' = 0 /\ blocked' = FALSE /\ perr' = "nil" /\ faultable' = FALSE /\ cutLen' = -1 /\ layoutOK' = TRUE /\ open' = TRUE
 
 \* the k-th sequential Read: the record written k-th, with the chunk that delimits it
 SeqRead == /\ IsEv("seq")
